@@ -6,6 +6,7 @@ open C05Model
 open C05FragModel
 open C05CodecModel
 open C05SegModel
+open C05SegCodecModel
 
 let hexn s = n_of_hex s
 let hn n = hex_of_n n
@@ -261,6 +262,28 @@ let case_b id cfg opstr toks obs =
   let m = Buffer.contents b in
   if m = obs then Printf.printf "OK %s\n" id else Printf.printf "MISMATCH %s model=%s\n" id m
 
+(* ---- M cases: moof bytes (partly mutated) through the byte-level decoders *)
+let case_m id kind boxhex obs =
+  let b = bytes_of_hex boxhex in
+  let trun_s t = hn t.tr_version ^ "." ^ hn t.tr_flags ^ "." ^ hn t.tr_fsf ^ "." ^ hz t.tr_doff ^ "|" ^ samples_string t.tr_samples in
+  let tfhd_s h = hn h.tf_flags ^ "." ^ hn h.tf_track ^ "." ^ hn h.tf_bdo ^ "." ^ hn h.tf_sdi ^ "." ^ hn h.tf_ddur ^ "." ^ hn h.tf_dsize ^ "." ^ hn h.tf_dflags in
+  let m =
+    match next_box b with
+    | Base.Ok ((((typ, _), _), body), _) ->
+      if typ = coq_T_MOOF then
+        (match dec_moof body with
+         | Base.Ok dm ->
+           "o|" ^ (match dm.dm_seq with Some s -> hn s | None -> "-") ^
+           S.concat "" (L.map (fun t ->
+               "|T" ^ (match t.dt_hd with Some h -> tfhd_s h | None -> "-") ^
+               ";" ^ (match t.dt_dt with Some d -> hn d.td_version ^ "." ^ hn d.td_base | None -> "-") ^
+               S.concat "" (L.map (fun r -> ";" ^ trun_s r) t.dt_truns)) dm.dm_trafs)
+         | r -> res_class r)
+      else "o|other"
+    | r -> res_class r in
+  (* one byte changed: the model's framing is stricter than the real decoders (see C05SegCodecModel.v) *)
+  if m = obs || (kind = "f" && m = "e") then Printf.printf "OK %s\n" id else Printf.printf "MISMATCH %s model=%s\n" id m
+
 (* ---- D cases: box decoders *)
 let rec drop n l = if n = 0 then l else match l with [] -> [] | _ :: t -> drop (n - 1) t
 let rec take n l = if n = 0 then [] else match l with [] -> [] | x :: t -> x :: take (n - 1) t
@@ -288,5 +311,6 @@ let () =
       | ["D"; id; kind; boxhex; obs] -> case_d id kind boxhex obs
       | ["G"; id; cfg; frs; obs] -> case_g id cfg frs obs
       | ["B"; id; cfg; op; toks; obs] -> case_b id cfg op toks obs
+      | ["M"; id; kind; boxhex; obs] -> case_m id kind boxhex obs
       | "STAT" :: _ -> ()
       | _ -> Printf.printf "BADLINE %s\n" (if S.length line > 80 then S.sub line 0 80 else line))
